@@ -213,7 +213,7 @@ def main(mode):
         fail = {"violated": "assumed string/regex contract differs from CPython: %r" % (bad[:3],)}
     protos = ["PYRO", "pyro", "PyRo", "PYRONAME", "pyroname", "PYROMETA", "PYROX", "PYR"]
     objs = ["obj", "o.b-j_1", "a@b", "x@", "Obj", "ＯＢＪ", "o:b", "a,b", ",", " a", "a b", ""]
-    locs = [None, "h:0", "localhost:0", "h:00", "[::1]:0", "h:1", "host.example.COM:9090", "h", "h:", ":55", "h:0x10", "h: 7", "h:+7", "h:-7", "h:７", "h:1_0", "127.0.0.1:65535", "[::1]:8", "[::1]", "[2001:DB8::2:1]:4444", "[1:2:3]:4444", "[a:b]:1", "[::]:1", "[%eth0:1]:2", "[fe80::1%5]:7", "[12:34:56:78:9a:bc:de:f0:11]:9",
+    locs = [None, "h:0", "localhost:0", "h:00", "[::1]:0", "h:1", "host.example.COM:9090", "h", "h:", ":55", "h:0x10", "h: 7", "h:+7", "h:-7", "h:７", "h:1_0", "127.0.0.1:65535", "[::1]:8", "[::1]", "[2001:DB8::2:1]:4444", "[1:2:3]:4444", "[a:b]:1", "[fe80::1%2525]:4444", "[fe80::1%25eth0]:1", "[fe80::1%251]:2", "[::]:1", "[%eth0:1]:2", "[fe80::1%5]:7", "[12:34:56:78:9a:bc:de:f0:11]:9",
             "[abc]:5", "[%eth0]:1", "[[::1]]:5", "[::1]:", "[::1]:x", "[g]:1", "[]:1", "./u:sock", "./u:/tmp/s.sock", "./u:", "./u:a:b", "./u", "./u:9", "[h:1", "h:1:2", "h]:1",
             "@h:1", "h:1@x", "h\n:1", "H:00055"]
     inputs = []
